@@ -3,9 +3,12 @@
 use crate::ConcurrencyAlgorithm;
 use std::future::Future;
 use std::pin::Pin;
+#[cfg(not(feature = "verif-hooks"))]
 use std::sync::atomic::{AtomicUsize, Ordering};
 use std::sync::Arc;
 use std::task::{Context, Poll};
+#[cfg(feature = "verif-hooks")]
+use tower_resilience_core::verif::atomic::{AtomicUsize, Ordering};
 use std::time::Instant;
 use tokio::sync::Semaphore;
 use tower_service::Service;
